@@ -128,10 +128,10 @@ class FlowPolicy(Policy):
         # un-inlined call
         if not self.is_no_raise(label) and self.may_raise_all:
             out.add("raise", cfg.set("$exc", ExcV("Exception", f"call {label or '?'} L{getattr(node, 'lineno', 0)}")))
-        if isinstance(fval, ClassV):
-            return [(cfg, App("new", (fval, *args)))]
         if label in PURE_FUNCS:
             return [(cfg, App(label, tuple(args)))]
+        if isinstance(fval, ClassV):
+            return [(cfg, App("new", (fval, *args)))]
         return [(cfg, App("res", (Const(label or "?"), Const(getattr(node, "lineno", 0)), *args)))]
 
     def keep_local(self, name):
